@@ -5,7 +5,7 @@ import os
 from .. import core, gen
 from ..core import Rng, mix
 from ..engine import Outcome
-from .base import STD, exec_args, plan_of, not_meta, crashed, classify_diff, exotic_tag, crash_text, split_static_function, K8_SIG, K9_KIND
+from .base import STD, exec_args, plan_of, not_meta, crashed, classify_diff, exotic_tag, crash_text, split_static_function, K8_SIG, K9_KIND, input_args, project_candidates
 
 
 def edit_kind(desc):
@@ -19,6 +19,12 @@ def edit_kind(desc):
         return "colshift%s" % ("256k" if s % 256 == 0 else "")
     if desc.startswith("comment"):
         return "comment"
+    if desc.startswith("add inline suppression (unmatched)"):
+        return "inline_nomatch"
+    if desc.startswith("remove inline"):
+        return "inline_remove"
+    if desc.startswith("header inline suppression (unmatched)"):
+        return "inline_hdr_nomatch"
     if desc.startswith("add inline"):
         return "inline_add"
     if desc.startswith("add file"):
@@ -37,6 +43,30 @@ def edit_kind(desc):
 
 
 K10_SIG = "inline suppression of a unit also applies to a same-named unit in a sub-path (single job only)"
+K12_SIG = "inline suppression in a header reached through a computed include is applied or not depending on which unit is analysed first"
+
+
+K13_SIG = "unmatchedSuppression located in a header is missing when the units including it are served from the cache"
+
+
+def _header_unmatched_lost(oa, ob, units, n_written):
+    """Known finding K13: an unmatched inline suppression inside a header is only reported by a run that re-analyses a unit
+    including the header (the report is not stored in any cache file, and a cached unit does not mark suppressions as checked).
+    True iff some unit was served from the cache and every difference is such a report missing on the cached side."""
+    if oa or not ob or n_written >= len(units):
+        return False
+    return all(f.id == "unmatchedSuppression" and f.primary_file() not in units and f.primary_file().endswith(".h") for f, _c in ob)
+
+
+def _computed_include_header_suppression(tree, oa, ob):
+    """Known finding K12: the inline suppressions of a header that a unit includes through a macro (#include MACRO) are unknown
+    while that unit is analysed - unless another unit that includes the header literally was analysed before in the same
+    process. True iff the tree has that shape and every difference is located in the header."""
+    if "shared.h" not in tree or "cppcheck-suppress" not in "\n".join(c for c in tree["shared.h"] if isinstance(c, str)):
+        return False
+    if not any("#include SHARED_HDR" in c for q in tree if q != "shared.h" for c in tree[q] if isinstance(c, str)):
+        return False
+    return bool(oa or ob) and all(f.primary_file() == "shared.h" for f, _c in list(oa) + list(ob))
 
 
 def _samename_suppression_leak(oa, ob, units):
@@ -76,6 +106,7 @@ def run_history(scn, wd, out, prop_id, variant="plain", judge_exit=False, wp_onl
     units = list(scn["units"])
     opts = dict(scn.get("opts", {}))
     since = []          # change descriptors since the last completed subject run
+    pscn = {"project": scn.get("project")}     # compile-database mode (may be changed by a history step)
     runs_done = 0
     states = []
     for si, step in enumerate(scn["history"]):
@@ -100,14 +131,20 @@ def run_history(scn, wd, out, prop_id, variant="plain", judge_exit=False, wp_onl
                     since.append("opt:" + k)
             opts = new
             continue
+        if "project" in step:
+            pscn = {"project": step["project"]}
+            since.append("opt:compile-database-defines")
+            continue
         if "wipe" in step:
             core.rmtree(bd); os.makedirs(bd)
             since = ["wipe"]
             continue
         run = step["run"]
         oargs = gen.flatten_opts(opts)
-        args = STD + oargs + ["--cppcheck-build-dir=../bd"] + exec_args(run) + units
-        r = core.run_sim(variant, tree_dir, args, plan=plan_of(run), roots=["../bd"], workdir=wd, tag="run%d" % si)
+        strip = tree_dir if pscn["project"] else None
+        inp = input_args(pscn, units, tree_dir, wd, "cdb%d" % si)
+        args = STD + oargs + ["--cppcheck-build-dir=../bd"] + exec_args(run) + inp
+        r = core.run_sim(variant, tree_dir, args, plan=plan_of(run), roots=["../bd"], workdir=wd, tag="run%d" % si, strip=strip)
         out.account(r)
         if "crash_op" in run:
             # the victim: its own output is not judged; it must have been killed by the injected crash (or have finished first)
@@ -126,8 +163,8 @@ def run_history(scn, wd, out, prop_id, variant="plain", judge_exit=False, wp_onl
                         ["run #%d %s" % (si, c), "args: " + " ".join(args)] + r.stderr.strip().split("\n")[-6:])
             since = []
             continue
-        ref_args = STD + oargs + ["-j1"] + units
-        ref = core.run_sim(variant, tree_dir, ref_args, plan=None, tag="ref%d" % si)
+        ref_args = STD + oargs + ["-j1"] + inp
+        ref = core.run_sim(variant, tree_dir, ref_args, plan=None, tag="ref%d" % si, strip=strip)
         cr = crashed(ref)
         if cr or not ref.xml_ok:
             out.probe("reference_unusable")
@@ -150,6 +187,10 @@ def run_history(scn, wd, out, prop_id, variant="plain", judge_exit=False, wp_onl
                 sig = "%s after [%s]%s" % (kind, ",".join(sorted(set(since))) or "nothing", exotic_tag(units))
                 if r.xml_ok and _samename_suppression_leak(oa, ob, units):
                     sig = K10_SIG
+                elif r.xml_ok and _computed_include_header_suppression(tree, oa, ob):
+                    sig = K12_SIG
+                elif r.xml_ok and runs_done > 0 and _header_unmatched_lost(oa, ob, units, len(written)):
+                    sig = K13_SIG
                 elif kind == K9_KIND and run.get("exec", "j1") == "j1" and runs_done > 0 and 0 < len(written) < len(units):
                     # known finding K9 needs exactly this: one job (only then is there an in-memory whole-program analysis next
                     # to the build-dir one), some units re-analysed and some taken from the cache; anywhere else a duplicated
@@ -181,6 +222,8 @@ def history_candidates(scn):
         c = copy.deepcopy(scn); del c["history"][i]
         if _valid(c):
             yield c
+    for c in project_candidates(scn):
+        yield c
     # 2. drop units
     if len(scn["units"]) > 1:
         for u in scn["units"]:
@@ -245,7 +288,7 @@ def _drop_unit(scn, u):
 
 
 def describe_history(scn):
-    d = {"units": scn["units"], "opts": gen.flatten_opts(scn.get("opts", {})), "history": []}
+    d = {"units": scn["units"], "opts": gen.flatten_opts(scn.get("opts", {})), "compile_commands": scn.get("project"), "history": []}
     for s in scn["history"]:
         if "edit" in s:
             d["history"].append("edit: " + s["edit"]["desc"])
@@ -253,6 +296,8 @@ def describe_history(scn):
             d["history"].append("options := " + " ".join(gen.flatten_opts(s["opts"])))
         elif "wipe" in s:
             d["history"].append("wipe build dir")
+        elif "project" in s:
+            d["history"].append("compile database := %s" % (s["project"],))
         else:
             r = s["run"]
             t = "run " + " ".join(exec_args(r))
